@@ -441,14 +441,17 @@ func (x *Interp) signal(fr *frame, st *Stmt) {
 	sites[st.Site%numSites](fr.sc.t, st.Kind, base, st.Site)
 }
 
-// harnessStack renders the harness frames of the current call stack (function:line), innermost first,
-// up to the property entry point. Library frames in between are left out on purpose.
+// harnessStack renders the harness frames of the current call stack (function:line), innermost first, up to
+// the entry point of the property, of the cleanup callback or of the Custom function the signal is raised in.
+// Library frames in between are left out on purpose. The library compares at most 32 frames of a failure's
+// stack, so only frames that are certainly inside that window are used (the signal itself adds up to 5 more
+// frames below this one): two failures the library must treat as the same are then the same here as well.
 func harnessStack() string {
 	pcs := make([]uintptr, 64)
 	pcs = pcs[:runtime.Callers(3, pcs)]
 	frames := runtime.CallersFrames(pcs)
 	var b strings.Builder
-	for {
+	for n := 0; n < 24; n++ {
 		f, more := frames.Next()
 		if strings.HasPrefix(f.Function, "vh.RunCheck") || strings.HasPrefix(f.Function, "vh.RunFuzz") || strings.HasPrefix(f.Function, "vh.Hosted") ||
 			strings.HasPrefix(f.Function, "vh.serveHost") || strings.HasPrefix(f.Function, "testing.") || strings.HasPrefix(f.Function, "vh.hosted") {
@@ -457,7 +460,7 @@ func harnessStack() string {
 		if strings.HasPrefix(f.Function, "vh.") {
 			fn := strings.TrimPrefix(f.Function, "vh.")
 			fmt.Fprintf(&b, "%s:%d;", fn, f.Line)
-			if fn == "(*Interp).Prop" {
+			if fn == "(*Interp).Prop" || fn == "(*Interp).execStmt.func1" || fn == "(*Interp).runCustom" {
 				break
 			}
 		}
